@@ -176,7 +176,28 @@ func composedCase(r *rng.R, kind string) sexp.Node {
 	default:
 		observed = sexp.T("executed", exe.Observe(o.resp))
 	}
+	// the same request through ParseAndValidate with the cost rule (default cost per field, a limit)
+	max := rng.Pick(r, []int{-1, 0, 2, 5, 12, 1000})
+	res := rng.Pick(r, []int{1, 1, 1, 0, 2, 3})
+	actual := -7
+	costObs := sexp.T("panic")
+	co := guarded(func() outcome {
+		_, errs := graphql.ParseAndValidate(text, s, nil, graphql.ValidateCost(in.OpName, vars, max, &actual, graphql.FieldCost{Resolver: res}))
+		switch {
+		case len(errs) == 0:
+			costObs = sexp.T("accepted", sexp.Int(actual))
+		case syntax:
+			costObs = sexp.T("syntax")
+		default:
+			costObs = sexp.T("invalid")
+		}
+		return outcome{class: "ok"}
+	})
+	if co.class != "ok" {
+		costObs = sexp.T(co.class, sexp.Str(co.detail))
+	}
 	return sexp.T("case", sexp.T("stream", sexp.Sym("composed")), sexp.T("api", sexp.Sym("execute")), sexp.T("kind", sexp.Sym(kind)),
+		sexp.T("cost", sexp.T("max", sexp.Int(max)), sexp.T("res", sexp.Int(res)), sexp.T("obs", costObs)),
 		sexp.T("query", sexp.Str(text)), sexp.T("op", sexp.Str(in.OpName)),
 		sexp.T("features", sexp.L()),
 		sexp.T("vschema", vld.SchemaSexp(s, in.ScalarKinds())),
